@@ -68,10 +68,12 @@ def handle9 (op : String) (a obs : List String) : Option Verdict :=
         Spec.pseudoFirst ((specFrame msg).map (·.2.1) |>.getD []) &&
         (if client then Spec.requestWellFormed fs && Spec.lookup fs ":path" == Spec.str "/"
          else (Spec.lookupOpt fs ":status").bind Spec.plainStatus == some statusSpec)
-    let streams := scenario == "streams"
+    let base := (scenario.splitOn "_sid").headD scenario
+    let wantSid : Option Nat := ((scenario.splitOn "_sid").drop 1).head?.bind (·.toNat?)
+    let streams := base == "streams"
     let uniM := if streams then hex (StreamHeader.write ⟨.webtransport, some sid⟩ ++ [1, 2, 3]) else "-"
     let biM := if streams then hex (Frame.write ⟨.webtransport, [], some sid⟩ ++ [1, 2, 3]) else "-"
-    let dgM := if scenario == "dgram" then
+    let dgM := if base == "dgram" then
         match Datagram.write (sid / 4) [0xaa] 100, Datagram.write (sid / 4) [0xbb, 0xcc] 100 with
         | some x, some y => s!"{hex x},{hex y}"
         | _, _ => "?"
@@ -97,7 +99,8 @@ def handle9 (op : String) (a obs : List String) : Option Verdict :=
       ("session_id_is_client_bidi", sidS == "-" || sid % 4 == 0),
       ("uni_stream_preamble_wellformed", !streams || specStream (field obs "uni") Spec.STREAM_WEBTRANSPORT),
       ("bidi_stream_preamble_wellformed", !streams || specStream (field obs "bi") Spec.FRAME_WEBTRANSPORT_STREAM),
-      ("datagrams_wellformed", scenario != "dgram" || specDgrams)]
+      ("datagrams_wellformed", base != "dgram" || specDgrams),
+      ("session_id_is_the_connect_stream", match wantSid with | some w => sidS == toString w | none => true)]
     pure (model, prop)
   | _ => none
 
